@@ -67,7 +67,13 @@ def gen_case(rng):
         # hundreds of (individually caught-up) overruns over the life of one delay object
         bodies = ([rng.choice([P + P // 2, 2 * P + 1])] + [0, 0, 0]) * 280
     return {"mode": "threaded", "P": P, "bodies": bodies, "after_free": rng.choice([1, 2]), "use_with": rng.random() < 0.6, "exit_exc": rng.random() < 0.4, "by_keyword": rng.random() < 0.5,
-            "start_offset": rng.randrange(0, 5000)}
+            "start_offset": rng.randrange(0, 5000),
+            # two release requests on one object (free() inside the with-block, then the block is left)
+            "free_in_with": rng.random() < 0.2,
+            # a second delay with ANOTHER period is alive (created after this one, released at the end): an inner loop
+            "other_period": rng.choice([None, None, 5000, 7001, 1000, 33333]),
+            # a delay with the SAME period was released part-way through its period just before this one is created
+            "pre_release": rng.choice([None, None, None, 0.3, 0.7])}
 
 
 def run_threaded(acc, case):
@@ -111,6 +117,8 @@ def run_threaded(acc, case):
                     with pd.NotifierDelay(P / 1e6) as d:
                         box["d"] = d
                         loop(d)
+                        if case.get("free_in_with"):
+                            d.free()           # released by hand, and once more when the block is left
                         if case.get("exit_exc"):
                             raise Boom()       # the with-block is left through an exception
                 except Boom:
@@ -137,6 +145,15 @@ def run_threaded(acc, case):
     th = threading.Thread(target=worker, daemon=True)
     th.start()
     acc.evaluations += 1
+    if case.get("pre_release") and not case.get("marathon"):
+        # an earlier loop with the same period ends part-way through its period; the new delay owes it nothing
+        pre = pd.NotifierDelay(P / 1e6)
+        e.advance(int(P * case["pre_release"]))
+        pre.free()
+        del proxy.calls[:]          # (the HAL hands the released handle out again: the log must start with the new delay)
+        proxy.alarms.clear()
+        proxy.last_init = None
+        acc.ev("same-period-delay-released-just-before")
     t0 = e.now()
     go.release()
     if not done.acquire(timeout=20):
@@ -153,6 +170,10 @@ def run_threaded(acc, case):
 
     def alarms():
         return [c[2] for c in proxy.calls if c[0] == "alarm" and c[1] == handle]
+    other = None
+    if case.get("other_period") and case["other_period"] != P and handle is not None:
+        other = pd.NotifierDelay(case["other_period"] / 1e6)        # nobody waits on it; it only has to leave the first one alone
+        acc.ev("second-delay-with-another-period-alive")
     overruns = ontime = 0
     seen = {"i": 0, "n": 0}
 
@@ -268,6 +289,13 @@ def run_threaded(acc, case):
             return None
         acc.ev("freed-wait-immediate")
     th.join(5)
+    if other is not None:
+        other.free()
+    if "exc" in box:
+        acc.violation("C16/raised", f"releasing the delay a second time / using it after release raised {box['exc']!r}", case, {})
+        return None
+    if case["use_with"] and case.get("free_in_with"):
+        acc.ev("freed-inside-the-with-block")
     if overruns and ontime:
         acc.nontrivial.add(stable_hash([P, bodies]))
     return None
